@@ -12,7 +12,7 @@
    implementation result.  Not proved: the same for diff and exposure outputs and for dot (parse-back in the
    check); encoding/json and encoding/csv are modelled on the alphabet the analysis produces. *)
 From Coq Require Import List ZArith Bool String Permutation.
-From NP Require Import IntervalSet ConnSet ConnSetProofs World Build Connlist Diff Format SortGeneric FormatProofs DotProofs XFormat XFormatProofs StrInj ConnInj RowInj
+From NP Require Import IntervalSet ConnSet ConnSetProofs World Build Connlist Diff Format SortGeneric FormatProofs DotProofs DiffDot DiffDotProofs XFormat XFormatProofs StrInj ConnInj RowInj
      Eval EvalProofs PartitionTiles ModelPrintable.
 Import ListNotations.
 
@@ -43,6 +43,13 @@ Theorem C09_dot_edges_are_exactly_the_entries es :
   Permutation (strsort (map (fun e => dot_edge_line (row_of e)) es)) (map (fun e => dot_edge_line (row_of e)) es).
 Proof. exact (list_dot_edges_are_the_entries es). Qed.
 Print Assumptions C09_dot_edges_are_exactly_the_entries.
+
+(* diff dot (byte-exact model Model/DiffDot.v): the edges are exactly the diff entries, unchanged ones included, each once *)
+Theorem C09_diff_dot_edges_are_exactly_the_entries d :
+  Permutation (strsort (map ddot_edge_line (filter (fun e => negb (is_ic e)) d)) ++ strsort (map ddot_edge_line (filter is_ic d)))
+              (map ddot_edge_line d).
+Proof. exact (diff_dot_edges_are_the_entries d). Qed.
+Print Assumptions C09_diff_dot_edges_are_exactly_the_entries.
 
 (* list --exposure, txt (byte-exact model Model/XFormat.v): the lines of each section are exactly the exposure entries, the
    IP connections of the exposed workloads and the unprotected directions, each once *)
